@@ -237,12 +237,92 @@ def run(ctx):
 
     temperatures(ctx, env)
     levels(ctx, env)
+    exact_magnitudes(ctx, env)
     for e in ctx.known:
         if e.get("status") == "known":
             ctx.witness(e["key"], ctx.known_hits.get(e["key"], 0) > 0)
     ctx.require("away_from_ties", 100)
     ctx.require("hash_checks", 5)
     ctx.require("pairs/M-M", 100)
+
+
+def exact_magnitudes(ctx, env):
+    """int and Decimal magnitudes that no float can hold (beyond 2**53, beyond 1e308, infinities) in one
+    unit or in non-negative decimal/binary prefixes of one unit: nothing here is a floating-point tie, every
+    step the library needs is exact integer/Decimal arithmetic, so the exact values decide every operator"""
+    m, rng = env.m, ctx.rng
+    U, P = m.Unit._by_name, env.pools.prefixes
+    Q = m.Quantity
+    bases = [U[n] for n in ("meter", "second", "gram", "bit", "joule", "foot", "ampere") if n in U]
+    pfx = [None, None, "kilo", "mega", "giga", "deca", "hecto", "kibi", "mebi"]
+    pfx = [p for p in pfx if p is None or p in P]
+    anchors = [2**53, 2**53 + 1, 2**64, 10**16, 10**22, 10**30, 3 * 10**40, 10**400, 7 * 10**310, 12345678901234567890123]
+    n = 600 if ctx.tier == "quick" else 40000
+
+    def make(value, kind, unit, pv):
+        """value is the exact value in the unprefixed unit"""
+        x = value / pv
+        if x.denominator != 1:
+            return None
+        x = int(x)
+        if kind == "decimal":
+            if len(str(abs(x)).rstrip("0")) > 22 or abs(x) >= 10**300:
+                return None  # keep inside the default Decimal context: the library's products stay exact
+            return Q(Decimal(x), unit)
+        return Q(x, unit)
+
+    for i in range(n):
+        u = rng.choice(bases)
+        pa, pb = rng.choice(pfx), rng.choice(pfx)
+        if pa and pb and (P[pa].base != P[pb].base):
+            pb = pa  # cross-base prefix products go through floats: C11's business
+        ua = u if pa is None else P[pa] * u
+        ub = u if pb is None else P[pb] * u
+        pva = Fraction(1) if pa is None else oracle.prefix_value(P[pa])
+        pvb = Fraction(1) if pb is None else oracle.prefix_value(P[pb])
+        lcm = pva * pvb
+        va = Fraction(rng.choice(anchors) + rng.choice([0, 0, 1, 2, 10**10])) * lcm * rng.choice([1, 1, -1])
+        vb = va + rng.choice([0, 0, 1, -1, 2, 10**10, -(10**10)]) * lcm
+        ka, kb = rng.choice(["int", "int", "decimal"]), rng.choice(["int", "int", "decimal"])
+        a, b = make(va, ka, ua, pva), make(vb, kb, ub, pvb)
+        if a is None or b is None:
+            ctx.count("exact_magnitude_pairs_skipped")
+            continue
+        ctx.count("evaluations")
+        ctx.count("pairs/Q-Q/exact_magnitudes")
+        case = {"a": repr(a), "b": repr(b)}
+        o = (va > vb) - (va < vb)
+        ctx.distinct(("exact", ka, kb, pa or "-", pb or "-", o, abs(va) > 10**308), a is not b)
+        try:
+            t = {"eq": a == b, "ne": a != b, "lt": a < b, "le": a <= b, "gt": a > b, "ge": a >= b,
+                 "req": b == a, "rne": b != a, "rlt": b < a, "rle": b <= a, "rgt": b > a, "rge": b >= a,
+                 "refl": (a == a) and (b == b) and not (a != a)}
+        except Exception as e:
+            ctx.violation(f"C12:exact-magnitudes:comparison-raised:{type(e).__name__}", f"{a!r} vs {b!r}: {e}", case)
+            continue
+        ctx.count("away_from_ties")
+        want = {"eq": o == 0, "ne": o != 0, "lt": o < 0, "le": o <= 0, "gt": o > 0, "ge": o >= 0,
+                "req": o == 0, "rne": o != 0, "rlt": o > 0, "rle": o >= 0, "rgt": o < 0, "rge": o <= 0, "refl": True}
+        if any(t[k] is not v for k, v in want.items()):
+            ctx.violation("C12:order-disagrees-with-physical-values", f"exact magnitudes {a!r} vs {b!r}: got {t}, exact order {o}", case)
+        if t["eq"] and t["req"]:
+            ctx.count("hash_checks")
+            if hash(a) != hash(b):
+                key = "C12:identical-quantities-unequal-or-hash-differs" if a.unit is b.unit else "C12:equal-but-written-differently-hash-differs"
+                ctx.violation(key, f"{a!r} == {b!r} but hash(a) != hash(b)", case)
+    inf = float("inf")
+    for u in bases:
+        for x, y, same in ((inf, inf, True), (-inf, -inf, True), (inf, -inf, False), (Decimal("Infinity"), inf, True), (inf, 10**400, False)):
+            a, b = Q(x, u), Q(y, u)
+            ctx.count("evaluations")
+            ctx.count("pairs/Q-Q/infinite_magnitudes")
+            try:
+                got = (a == b, b == a, a != b)
+            except Exception as e:
+                ctx.violation(f"C12:exact-magnitudes:comparison-raised:{type(e).__name__}", f"{a!r} vs {b!r}: {e}", {"a": repr(a), "b": repr(b)})
+                continue
+            if got != (same, same, not same):
+                ctx.violation("C12:order-disagrees-with-physical-values", f"infinite magnitudes {a!r} == {b!r}: got (==, reversed ==, !=) = {got}", {"a": repr(a), "b": repr(b)})
 
 
 def temperatures(ctx, env):
